@@ -35,13 +35,15 @@ def install_proxy(ctx):
         class Chi2Calculator:          # noqa  (same public name on purpose)
             __gmv_original__ = Real
 
-            def __init__(self, mol1, mol2, restrictions=None):
+            def __init__(self, *args, **kwargs):
+                mol1, mol2, restrictions = bus.seen(('mol1', 'mol2', 'restrictions'), args, kwargs)
                 self._gmv_fixed = np.array(mol1, float, copy=True)
                 self._gmv_restr = None if restrictions is None else [tuple(int(x) for x in r) for r in np.asarray(restrictions).reshape(-1, 2)] if len(restrictions) else []
-                self._gmv_real = Real(mol1, mol2, restrictions)
+                self._gmv_real = Real(*args, **kwargs)
 
-            def __call__(self, mol2):
-                value = self._gmv_real(mol2)
+            def __call__(self, *args, **kwargs):
+                mol2, = bus.seen(('mol2',), args, kwargs)
+                value = self._gmv_real(*args, **kwargs)
                 try:
                     every = _state.get('sample_every', 1)
                     _state['n'] = _state.get('n', 0) + 1
